@@ -38,8 +38,11 @@ def _job(job):
     what = "table %r encoded with %s, sheet %d of %d" % (expected, sorted(vec["features"]), vec["wanted"], vec["nsheets"])
     signature = None
     try:
-        rows = list(rowio.ods_rows(path, vec["wanted"]))
+        rows, disturbed = core.read_independently(lambda: rowio.ods_rows(path, vec["wanted"]))
         outcome = "rows"
+        if disturbed is not None and disturbed != rows:
+            problems.append("%s: read again beside an abandoned reader and in lockstep with another one, ods_rows returns %r "
+                            "instead of %r" % (what, disturbed, rows))
     except errors.DataFormatError as error:
         rows, outcome = str(error), "DataFormatError"
     except Exception as error:  # noqa
